@@ -229,7 +229,7 @@ Qed.
 
 (* name tables: ASCII keys, non-negative values, no key is "", "*" or "?" *)
 Definition names_okb (names : list (list N * Z)) : bool :=
-  forallb (fun p => ascii (fst p) && (0 <=? snd p)) names &&
+  forallb (fun p => ascii (fst p) && (0 <=? snd p) && negb (forallb is_digit (fst p))) names &&
   match assoc [] names, assoc [42%N] names, assoc [63%N] names with
   | None, None, None => true
   | _, _, _ => false
@@ -238,7 +238,18 @@ Definition names_okb (names : list (list N * Z)) : bool :=
 Lemma names_ok_in names k v : names_okb names = true -> In (k, v) names -> ascii k = true /\ 0 <= v.
 Proof.
   unfold names_okb. intros H Hin. apply andb_true_iff in H as [H _].
-  rewrite forallb_forall in H. specialize (H _ Hin). cbn [fst snd] in H. lia.
+  rewrite forallb_forall in H. specialize (H _ Hin). cbn [fst snd] in H.
+  apply andb_true_iff in H as [H _]. lia.
+Qed.
+
+Lemma names_ok_digits names s : names_okb names = true -> forallb is_digit s = true ->
+  assoc s names = None.
+Proof.
+  unfold names_okb. intros H Hd. apply andb_true_iff in H as [H _].
+  induction names as [|[k v] names IH]; [reflexivity|]. cbn [forallb fst snd] in H.
+  apply andb_true_iff in H as [Hk H]. cbn [assoc].
+  destruct (eqb_listN s k) eqn:E; [|apply IH; exact H].
+  apply eqb_listN_spec in E. subst k. rewrite Hd in Hk. cbn in Hk. lia.
 Qed.
 
 Lemma is_star_or_q_cases a : is_star_or_q a = true -> a = [42%N] \/ a = [63%N].
@@ -558,10 +569,63 @@ Qed.
 
 Ltac err_now := eexists; reflexivity.
 
-Theorem refused_item_rejected f r e :
-  fr_ok f r -> refused_item f e = true -> exists err, get_range e r = Err err.
+(* an empty or over-long operand is read by nobody *)
+Lemma unparsable_facts names s : names_okb names = true -> unparsable s = true ->
+  parse_int_or_name s names = Err EParseInt /\ must_parse_int s = Err EParseInt /\
+  is_star_or_q s = false.
 Proof.
-  intros [Hlo Hhi Hnm Hlo0 Hle Hhi62 Hnok]. unfold refused_item, get_range.
+  intros Hok Hu. unfold unparsable in Hu. apply orb_true_iff in Hu as [Hu | Hu].
+  - destruct s as [|c s']; [|discriminate]. unfold parse_int_or_name. cbn [lower_key].
+    assert (Hn : assoc [] names = None).
+    { unfold names_okb in Hok. apply andb_true_iff in Hok as [_ Hok].
+      destruct (assoc [] names); [discriminate | reflexivity]. }
+    rewrite Hn. repeat split; reflexivity.
+  - unfold huge in Hu. apply andb_true_iff in Hu as [Hu Hbig]. apply andb_true_iff in Hu as [Hne Hd].
+    destruct (digits_val 0 s) as [n|] eqn:En; [|discriminate].
+    destruct s as [|c s']; [discriminate|].
+    assert (Hc : is_digit c = true) by (cbn [forallb] in Hd; apply andb_true_iff in Hd; tauto).
+    assert (Hc2 : c <> 43%N /\ c <> 45%N) by (unfold is_digit in Hc; lia).
+    assert (Hm : must_parse_int (c :: s') = Err EParseInt).
+    { unfold must_parse_int. rewrite (atoi_unsigned c s' (proj1 Hc2) (proj2 Hc2)), En.
+      replace ((- 2 ^ 63 <=? n) && (n <=? 2 ^ 63 - 1)) with false by lia. reflexivity. }
+    destruct (digits_ascii _ Hd) as [Hasc Hmap].
+    split; [|split; [exact Hm|]].
+    + unfold parse_int_or_name. rewrite (lower_key_ascii _ Hasc), Hmap.
+      rewrite (names_ok_digits names _ Hok Hd). exact Hm.
+    + destruct (is_star_or_q (c :: s')) eqn:Es; [|reflexivity].
+      destruct (is_star_or_q_cases _ Es) as [E | E]; injection E as -> _; discriminate.
+Qed.
+
+Theorem refused_shape_rejected f r e :
+  fr_ok f r -> refused_shape e = true -> exists err, get_range e r = Err err.
+Proof.
+  intros [Hlo Hhi Hnm Hlo0 Hle Hhi62 Hnok]. pose proof (get_range_no_panic e r) as NP.
+  unfold refused_shape. intros H. apply andb_true_iff in H as [_ H]. revert H NP.
+  unfold get_range.
+  destruct (split_on 47 e) as [|rg rest]; [discriminate|]. cbn [hd].
+  destruct (split_on 45 rg) as [|a more]; [discriminate|]. cbn [hd].
+  intros H NP. apply orb_true_iff in H as [H | H]; [apply orb_true_iff in H as [H | H]|].
+  - (* the first operand *)
+    destruct (unparsable_facts _ a Hnok H) as (P & _ & S). rewrite S, <- Hnm, P. cbn [bind]. err_now.
+  - (* the second operand *)
+    apply andb_true_iff in H as [S H]. apply negb_true_iff in S.
+    destruct more as [|b [|c l]]; try discriminate.
+    destruct (unparsable_facts _ b Hnok H) as (P & _ & _). rewrite S, <- Hnm.
+    destruct (pion_cases a (f_names f)) as [[v ->] | [er ->]]; cbn [bind]; [|err_now].
+    rewrite P. cbn [bind]. err_now.
+  - (* the step *)
+    destruct rest as [|st [|x l]]; try discriminate.
+    destruct (unparsable_facts _ st Hnok H) as (_ & P & _).
+    revert NP. match goal with |- bind ?s1 _ <> _ -> _ => destruct s1 as [[[start end_] extra]|er|] end;
+      cbn [bind]; intros NP; [|err_now | congruence].
+    rewrite P. cbn [bind]. err_now.
+Qed.
+
+
+Theorem refused_words_rejected f r e :
+  fr_ok f r -> refused_words f e = true -> exists err, get_range e r = Err err.
+Proof.
+  intros [Hlo Hhi Hnm Hlo0 Hle Hhi62 Hnok]. unfold refused_words, get_range.
   destruct (split_on 47 e) as [|rg [|st [|x l]]]; try discriminate; cbn [hd].
   - destruct (split_on 45 rg) as [|a [|b [|y l]]]; try discriminate; cbn [hd].
     + intros H. apply andb_true_iff in H as [Wa Ba].
@@ -586,6 +650,13 @@ Proof.
       destruct (bad_value f b) eqn:Bb; [rewrite (bad_value_parse f b Wb Bb); cbn [bind]; err_now|].
       destruct (pion_cases b (f_names f)) as [[w ->] | [er ->]]; cbn [bind]; [|err_now].
       cbn [orb] in Bs. rewrite (not_number_parse st Wst Bs). cbn [bind]. err_now.
+Qed.
+
+Theorem refused_item_rejected f r e :
+  fr_ok f r -> refused_item f e = true -> exists err, get_range e r = Err err.
+Proof.
+  intros Hfr H. unfold refused_item in H. apply orb_true_iff in H as [H | H];
+    [apply (refused_words_rejected f r e Hfr H) | apply (refused_shape_rejected f r e Hfr H)].
 Qed.
 
 Lemma loop_err r e : (exists err, get_range e r = Err err) -> forall items, In e items ->
@@ -818,7 +889,19 @@ Example parse_denotes_ex_invalid :
   parse_doc_out 380 None None (bs "0 0 * Mayhem *") = Some ObsErr /\
   parse_doc_out 380 None None (bs "+5 0 * jan-marble *") = Some ObsErr /\
   parse_doc_out 380 None None (bs "0 0 * * mon/x2") = Some ObsErr /\
-  parse_doc_out 380 None None (bs "0 0 * * jan") = Some ObsErr.
+  parse_doc_out 380 None None (bs "0 0 * * jan") = Some ObsErr /\
+  parse_doc_out 380 None None (bs "-5 * * * *") = Some ObsErr /\
+  parse_doc_out 380 None None (bs "/15 * * * *") = Some ObsErr /\
+  parse_doc_out 380 None None (bs "5- * * * *") = Some ObsErr /\
+  parse_doc_out 380 None None (bs "5/ * * * *") = Some ObsErr /\
+  parse_doc_out 380 None None (bs "* * * * -FRI") = Some ObsErr /\
+  parse_doc_out 380 None None (bs "18446744073709551621 * * * *") = Some ObsErr /\
+  parse_doc_out 380 None None (bs "*/18446744073709551631 * * * *") = Some ObsErr /\
+  parse_doc_out 380 None None (bs "1-9223372036854775808 * * * *") = Some ObsErr /\
+  parse_doc_out 380 None None (bs "4294967301 * * * *") = Some ObsErr /\
+  parse_doc_out 380 None None (bs "5 1,,2 * * *") = None /\
+  parse_doc_out 380 None None (bs "0000000000000000000005 * * * *") =
+    parse_doc_out 380 None None (bs "5 * * * *").
 Proof. vm_compute. repeat split; reflexivity. Qed.
 
 (* ------------------------------------------------------------------------------------ *)
